@@ -274,8 +274,14 @@ class Check:
         ev = {"property_id": self.pid, "tier": self.tier, "seed": self.seed, "level": level,
               "coverage": self.cov, "assumptions": self.assumptions,
               "wall_s": round(time.time() - self.t0, 2), "violations": len(self.violations)}
-        os.makedirs(os.path.join(VERIF, "evidence"), exist_ok=True)
-        with open(os.path.join(VERIF, "evidence", self.pid + ".json"), "w") as f:
+        # evidence/<id>.json describes a quick/thorough run; a --replay run (one scenario, no model
+        # checking) or a run redirected by VERIF_EVIDENCE_DIR (tools/try_mutant.sh) must not replace it
+        evdir = os.environ.get("VERIF_EVIDENCE_DIR") or os.path.join(VERIF, "evidence")
+        evname = self.pid + (".replay.json" if self.replay else ".json")
+        if self.replay and not os.environ.get("VERIF_EVIDENCE_DIR"):
+            evdir = os.path.join(VERIF, "out", self.pid)
+        os.makedirs(evdir, exist_ok=True)
+        with open(os.path.join(evdir, evname), "w") as f:
             json.dump(ev, f, indent=1)
         for k, text in self.known_seen:
             print("KNOWN-FINDING: property=%s %s" % (self.pid, k["what"]))
